@@ -347,6 +347,113 @@ class Sweep:
             same = relerr(ms, live[1]) <= 1e-12
             chk.count("chain-split:" + ("same" if same else "differs"))
 
+    # ---- histories: the same unit pair asked repeatedly with other values / keywords -----------
+    def history(self):
+        """a conversion is a function of (value, units, keywords) alone: on one (equivalence, input
+        unit, target unit) a sequence of requests with different values, different keyword
+        arguments, arrays then 0-d quantities, copying then in-place forms; every answer must be
+        the defining formula.  The replay is the whole sequence (a remembered factor, branch,
+        keyword or instance only shows after an earlier call)."""
+        from unyt import Unit, unyt_array, unyt_quantity
+
+        chk, rng, C = self.chk, self.rng, self.C
+        for eq, cls in self.reg.items():
+            accepted = self.param_names(cls)
+            pairs = list(itertools.permutations(list(cls._dims), 2))
+            if self.tier == "quick" and len(pairs) > 4:
+                pairs = rng.sample(pairs, 4)
+            for da, db in pairs:
+                a, b = self.dn(da), self.dn(db)
+                ref = reference(eq, a, b)
+                pa, pb = self.pool(a, da), self.pool(b, db)
+                if ref is None or not pa or not pb:
+                    continue
+                for ua, ub in [(pa[0], pb[0]), (rng.choice(pa), rng.choice(pb))]:
+                    sa, sb = float(Unit(ua).base_value), float(Unit(ub).base_value)
+                    kw1 = {}
+                    kw2 = {p: {"mu": round(rng.uniform(0.5, 2.4), 3), "gamma": rng.choice([1.4, 1.1, 2.0])}.get(p, 1.5) for p in accepted}
+                    v1 = values_for(rng, eq, a, sa, C, self.tier)
+                    v2 = values_for(rng, eq, a, sa, C, self.tier)
+                    # proportional first (what a remembered factor would be learnt from), then not
+                    steps = [("to_equivalent", [v1[0], 2.0 * v1[0], 4.0 * v1[0]] if eq != "lorentz" else v1, kw1),
+                             ("to_equivalent", v2, kw1), ("to", v1, kw2), ("to_equivalent", v2[:1], kw2),
+                             ("quantity", v2[1:2], kw1), ("convert_to_equivalent", v1, kw1), ("to_value", v2, kw1)]
+                    src = ""
+                    bad = None
+                    for i, (entry, vals, kw) in enumerate(steps):
+                        mu, ga = kw.get("mu", 0.6), kw.get("gamma", 5.0 / 3.0)
+                        kws = kw_src(kw)
+                        x_si = np.array(vals, dtype="float64") * sa
+                        with np.errstate(all="ignore"):
+                            want_si = np.asarray(ref(x_si, C, mu, ga), dtype="float64")
+                        tol = LAW_RTOL * lorentz_cond(eq, a, x_si, C)
+                        if not (np.all(np.isfinite(want_si)) and math.isfinite(tol)):
+                            continue
+                        if entry == "quantity":
+                            call = f"x = unyt_quantity({vals[0]!r}, {ua!r}); r = x.to_equivalent({ub!r}, {eq!r}{kws}); got = np.atleast_1d(r.d)\n"
+                        elif entry == "convert_to_equivalent":
+                            call = f"x = unyt_array(np.array({list(vals)!r}), {ua!r}); x.convert_to_equivalent({ub!r}, {eq!r}{kws}); got = x.d\n"
+                        elif entry == "to_value":
+                            call = f"x = unyt_array(np.array({list(vals)!r}), {ua!r}); got = x.to_value({ub!r}, {eq!r}{kws})\n"
+                        else:
+                            call = f"x = unyt_array(np.array({list(vals)!r}), {ua!r}); r = x.{entry}({ub!r}, {eq!r}{kws}); got = r.d\n"
+                        src += call + f"assert relerr(np.asarray(got) * {sb!r}, np.array({want_si.tolist()!r})) <= {tol!r}, ('step {i}: {entry}', got)\n"
+                        chk.case(f"history|{eq}|{a}->{b}|{ua}|{ub}|{i}", None)
+                    env = {}
+                    try:
+                        exec(compile(snippet(covered_guard(eq, ua, ub) + src), "<history>", "exec"), env)
+                        chk.count("history:consistent")
+                    except SystemExit:
+                        chk.count("history:not-covered")
+                    except AssertionError as e:
+                        step = str(e.args[0][0]) if e.args and isinstance(e.args[0], tuple) else "?"
+                        entry = step.split(": ")[-1]
+                        chk.fail(f"history|{eq}|{a}->{b}|{entry}", f"after earlier requests on the same units, {step} differs from the defining formula",
+                                 {"python": snippet(covered_guard(eq, ua, ub) + src), "equivalence": eq, "units": [ua, ub]})
+                    except Exception as e:
+                        chk.fail(f"history|{eq}|{a}->{b}|raise|{core.exc_name(e)}", f"a request in a sequence on the same units raised {e!r}",
+                                 {"python": snippet(covered_guard(eq, ua, ub) + src), "equivalence": eq, "units": [ua, ub]})
+
+    # ---- integer and single-precision inputs -------------------------------------------------
+    def dtypes(self):
+        """the formula clause for inputs that are not float64: small whole numbers held as int64
+        (copying and in-place forms), int32 and float32 (copying forms).  A ufunc that is exact on
+        floats but truncates on integers (`reciprocal`, `floor_divide`, `power` with a negative
+        exponent, an `out=` into the integer buffer) only shows here."""
+        from unyt import Unit, unyt_array
+
+        chk, C = self.chk, self.C
+        for eq, cls in self.reg.items():
+            for da, db in itertools.permutations(list(cls._dims), 2):
+                a, b = self.dn(da), self.dn(db)
+                ref = reference(eq, a, b)
+                pa, pb = self.pool(a, da), self.pool(b, db)
+                if ref is None or not pa or not pb:
+                    continue
+                ua, ub = pa[0], pb[0]
+                sa, sb = float(Unit(ua).base_value), float(Unit(ub).base_value)
+                vals = [100000000, 200000000, 290000000] if (eq == "lorentz" and a == "velocity") else [2, 3, 50]
+                with np.errstate(all="ignore"):
+                    want_si = np.asarray(ref(np.array(vals, dtype="float64") * sa, C, 0.6, 5.0 / 3.0), dtype="float64")
+                for dt, mode in (("int64", "copy"), ("int64", "inplace"), ("int32", "copy"), ("float32", "copy")):
+                    tol = (LAW_RTOL if dt == "int64" else 2.0 ** -18) * lorentz_cond(eq, a, np.array(vals, dtype="float64") * sa, C)
+                    call = (f"r = x.to_equivalent({ub!r}, {eq!r})" if mode == "copy" else f"x.convert_to_equivalent({ub!r}, {eq!r}); r = x")
+                    src = (f"x = unyt_array(np.array({vals!r}, dtype={dt!r}), {ua!r})\n{call}\n"
+                           f"assert r.units == Unit({ub!r}), r.units\n"
+                           f"assert relerr(np.asarray(r.d, dtype='float64') * {sb!r}, np.array({want_si.tolist()!r})) <= {tol!r}, r\n")
+                    chk.case(f"dtype|{eq}|{a}->{b}|{dt}|{mode}", None)
+                    try:
+                        exec(compile(snippet(covered_guard(eq, ua, ub) + src), "<dtypes>", "exec"), {})
+                        chk.count("dtype:" + dt + ":ok")
+                    except SystemExit:
+                        chk.count("dtype:not-covered")
+                    except AssertionError:
+                        chk.fail(f"dtype|{eq}|{a}->{b}|{dt}|{mode}", f"{dt} input ({mode}): value or unit differs from the defining formula",
+                                 {"python": snippet(covered_guard(eq, ua, ub) + src), "equivalence": eq, "units": [ua, ub]})
+                    except Exception as e:
+                        chk.fail(f"dtype|{eq}|{a}->{b}|{dt}|{mode}|raise|{core.exc_name(e)}", f"{dt} input ({mode}) raised {e!r}",
+                                 {"python": snippet(covered_guard(eq, ua, ub) + src), "equivalence": eq, "units": [ua, ub]})
+
     # ---- covered requests ---------------------------------------------------------------
     def covered(self, n_units, with_quantity=True):
         import unyt
@@ -1039,6 +1146,8 @@ def run(tier, seed):
     sw.lorentz_endpoints()
     sw.has_equivalent()
     sw.chains()
+    sw.history()
+    sw.dtypes()
     if model is not None:
         sw.check_chains(model)
 
